@@ -15,6 +15,7 @@ import Driver.Writer
 import Driver.VP8LEntropy
 import Driver.CodecFront
 import Driver.BoolCoder
+import Driver.VP8SyntaxBytes
 /-
   webpdrv — line protocol: one operation per input line (`op arg arg …`), one canonical
   output line per operation.  Unknown or malformed operations answer `bad-op` (never a default).
@@ -36,7 +37,8 @@ def dispatch (line : String) : String :=
            <|> Driver.Writer.handle op args
            <|> Driver.VP8LEntropy.handle op args
            <|> Driver.CodecFront.handle op args
-           <|> Driver.BoolCoder.handle op args) with
+           <|> Driver.BoolCoder.handle op args
+           <|> Driver.VP8SyntaxBytes.handle op args) with
     | some r => r
     | none => "bad-op"
 
